@@ -133,6 +133,10 @@ def c_record_failure(it, fv, args, kwargs, node):
     g["last_cls_ident"] = cls.ident
     g["last_cause"] = sterm(kwargs["cause"])
     g["last_op_was_failure"] = True
+    is_exc = sterm(kwargs["cause"]) == z3.StringVal("exception")
+    en, ev = sv.opt_view(it, kwargs["exc"], lambda v: v.ident)
+    rn, rv = sv.opt_view(it, kwargs["result"], lambda v: ops.ident_of(v))
+    g["fail_ident"] = z3.If(is_exc, ev if ev is not None else z3.IntVal(-1), rv if rv is not None else z3.IntVal(-1))
     g["last_fail_class"] = K
     g["last_fail_valid"] = True
     g["nonretry_seen"] = z3.Or(g["nonretry_seen"], w.is_nonretry(K))
@@ -178,7 +182,7 @@ GHOST_MODIFIED_BY_HF = ["strat_calls_attempt", "strat_fn", "strat_ctx_ident", "s
                         "term_exc", "term_cause_none", "term_cause", "last_retry_attempt", "last_retry_sleep",
                         "nonretry_seen", "last_fail_class", "last_fail_valid", "now", "last_elapsed", "last_elapsed_t",
                         "need_post_sleep_read", "post_sleep_elapsed", "remaining_at_decision", "fail_count", "elapsed_reads",
-                        "last_cls", "last_cls_ident", "last_cause", "last_op_was_failure"]
+                        "last_cls", "last_cls_ident", "last_cause", "last_op_was_failure", "fail_ident"]
 
 
 def hf_relation(it, w, pre: sv.View, post: sv.View, a, res, gp: Ghost, gq: Ghost, start_mono):
@@ -229,7 +233,9 @@ def hf_relation(it, w, pre: sv.View, post: sv.View, a, res, gp: Ghost, gq: Ghost
         z3.And(z3.Implies(gq["need_post_sleep_read"], z3.And(gp["need_post_sleep_read"], gq["elapsed_reads"] == gp["elapsed_reads"])),
                z3.Implies(z3.Not(gp["need_post_sleep_read"]), gq["post_sleep_elapsed"] == gp["post_sleep_elapsed"])))
     add("ghost/final-failure-record", "C11",
-        z3.And(gq["last_cls"] == K, gq["last_cls_ident"] == a["cls_ident"], gq["last_cause"] == cause, gq["last_op_was_failure"]))
+        z3.And(gq["last_cls"] == K, gq["last_cls_ident"] == a["cls_ident"], gq["last_cause"] == cause, gq["last_op_was_failure"],
+               gq["fail_ident"] == z3.If(is_exc_cause, a["exc"][1] if a["exc"][1] is not None else z3.IntVal(-1),
+                                         a["result"][1] if a["result"][1] is not None else z3.IntVal(-1))))
     add("stable/_last_strategy-or-selected", "C05",
         z3.Or(sv.same_opt(post.f["_last_strategy"], pre.f["_last_strategy"]),
               z3.And(z3.Not(post.none("_last_strategy")), post.val("_last_strategy") == w.strategy_ident(K))))
